@@ -84,16 +84,40 @@ func solveVC(vc *VC, o solveOpts) []*Result {
 	if len(obs) == 0 {
 		return nil
 	}
-	file := tmpFile(shortFuncName(vc.root.String()))
-	script := vc.script(true) // pass 1: quantified hypotheses dropped (sound weakening)
-	os.WriteFile(file, []byte(script), 0o644)
 	hard := time.Duration(len(obs)*o.timeoutMs+20000) * time.Millisecond
 	if max := time.Duration(12*o.timeoutMs) * time.Millisecond; hard > max {
 		hard = max // a VC that needs this long is a generator problem, not a proof
 	}
-	out, secs := runSolver(solvers[0], file, o.timeoutMs, hard)
-	if !o.keep {
-		defer os.Remove(file)
+	pass1 := o.timeoutMs
+	if pass1 > 3000 {
+		pass1 = 3000 // whatever the quantifier-free pass cannot decide quickly goes to the race
+	}
+	// pass 1: quantified hypotheses dropped (sound weakening); large VCs are
+	// sharded: every process assumes all obligations but checks only its share
+	shards := 1
+	if len(obs) > 150 {
+		shards = 4
+	}
+	outs := make([]string, shards)
+	secsS := make([]float64, shards)
+	var swg sync.WaitGroup
+	for k := 0; k < shards; k++ {
+		swg.Add(1)
+		go func(k int) {
+			defer swg.Done()
+			file := tmpFile(shortFuncName(vc.root.String()))
+			os.WriteFile(file, []byte(vc.scriptShard(true, k, shards)), 0o644)
+			outs[k], secsS[k] = runSolver(solvers[0], file, pass1, hard)
+			if !o.keep {
+				os.Remove(file)
+			}
+		}(k)
+	}
+	swg.Wait()
+	out := strings.Join(outs, "\n")
+	secs := 0.0
+	for _, s := range secsS {
+		secs += s
 	}
 	status := map[string]string{}
 	var errLines []string
